@@ -255,6 +255,18 @@ def delegation(ctx, R):
             accept = set(ALIAS.get(fn, []) + ALIAS.get(x, []) + [fn, x])
             calls = inner_calls(F, ub, f0)
             good = []
+            if fn == 'shard_stats':
+                # `self.0.get_main_store().shard_stats()`: the live store reached through the tracker's own accessor
+                for hb_ in [ub] + all_closures(F, ub):
+                    ebh_ = ExprBuilder(hb_)
+                    for c_ in hb_.find_calls('shard_stats'):
+                        r_ = ebh_.arg(c_, 0)
+                        gm = [y for y in r_.walk() if y.kind == 'call' and y.name.rsplit('::', 1)[-1] == 'get_main_store' and y.args]
+                        if gm:
+                            rb_, rs_ = resolve_to_root(F, hb_, gm[0].args[0])
+                            rs_ = through_accessors(F, rs_).strip()
+                            if rb_ is ub and rs_.kind == 'place' and rs_.root == ('param', 1) and rs_.fields == (f0,):
+                                good.append(c_)
             for c, flds, b in calls:
                 nm = c.name
                 if nm not in accept:
@@ -484,6 +496,9 @@ def transmutes(ctx, R):
                     src, dst = s['rv']['from'], s['rv']['ty']
                     if 'MaybeUninit' in src or 'MaybeUninit' in dst or src.startswith('*') or dst == 'usize':
                         continue        # vec![] / Box allocation plumbing
+                    if src.startswith('std::ptr::NonNull<') and dst.startswith(('*const ', '*mut ')) and \
+                            src[len('std::ptr::NonNull<'):-1] == dst.split(' ', 1)[1]:
+                        continue        # compiler-generated deref of a Box<T> / Box<[T]> (its pointer read as a raw pointer)
                     ctx.read(b)
                     n += 1
                     ctx.check(layout_related(F, src, dst), R, b, 'transmute:%s->%s' % (
@@ -604,6 +619,13 @@ def defaults(ctx, R):
                     dflt += [expand_calls(F, ExprBuilder(x).place(0, ()), depth=2) for x in ty] or [y]
                 if y.kind == 'phi':
                     dflt += [expand_calls(F, a, depth=2) for a in y.args if not a.places()]
+            def unproj(d_):
+                # `maha().0`: the projected constructor call, expanded without its projection
+                if d_.kind == 'call' and d_.proj:
+                    from lib import E as _E
+                    return expand_calls(F, _E('call', name=d_.name, args=d_.args, site=d_.site, extra=d_.extra), depth=2)
+                return d_
+            dflt = [unproj(d_) for d_ in dflt]
             n += 1
             txt = ' | '.join(repr(d) for d in dflt)
             ctx.read(b)
